@@ -19,11 +19,12 @@ EXTENDS Naturals, Sequences, FiniteSets, TLC
 (* a12 "1 2"   a23 "2 3"   a33 "3 3"   aOOR "1 4"   aZero "0 1"   aOne "1"   aThree "1 2 3"   aNaN "a b" *)
 (* cmtBin "# g\xe9n\xe9r\xe9" (a comment holding bytes that are not UTF-8)   aBin "1 \xff2" (such bytes in an attack line)                  *)
 IccmaKinds == {"cmt", "empty", "ws", "hdr", "hdr0", "hdrKind", "hdrP", "hdrNum", "hdrNeg", "hdrShort",
-               "a12", "a23", "a33", "aOOR", "aZero", "aOne", "aThree", "aNaN", "cmtBin", "aBin"}
+               "a12", "a23", "a33", "aOOR", "aZero", "aOne", "aThree", "aNaN", "cmtBin", "aBin", "aWrap64", "aWrap32"}
 GoodHdr == {"hdr", "hdr0"}
 BadHdr  == {"hdrKind", "hdrP", "hdrNum", "hdrNeg", "hdrShort"}
 GoodAtt == {"a12", "a23", "a33"}
-BadAtt  == {"aOOR", "aZero", "aOne", "aThree", "aNaN", "aBin"}
+(* aWrap64 "18446744073709551618 3" (2^64 + 2)   aWrap32 "1 4294967298" (2^32 + 2): out of range, whatever they are congruent to *)
+BadAtt  == {"aOOR", "aZero", "aOne", "aThree", "aNaN", "aBin", "aWrap64", "aWrap32"}
 AttOf(k) == CASE k = "a12" -> <<1, 2>> [] k = "a23" -> <<2, 3>> [] k = "a33" -> <<3, 3>>
 Content(k) == k \notin {"cmt", "empty", "cmtBin"}
 
